@@ -79,6 +79,9 @@ def scenario(c, d, runs=None):
     T = len(c["pos"])
     pre = os.path.join(d, "c%s_" % c["id"])
     L = ["natoms %d" % c["natoms"]] + list(c.get("setup", [])) + ["show err 1"]
+    if c.get("needs_prefix"):
+        # the module writes its own restart / output files (restartfreq): give them a place
+        L.append("prefix %sout" % pre)
     for run in (runs or plan(c)):
         if run[0] == "U":
             L += begin_lines(c, "U")
